@@ -526,7 +526,7 @@ func preprocessDescriptors(baseUrl string, descriptors []pa.Compound, out parsed
 		}
 
 		tokens := pa.RemoveWhitespace(decl.Value)
-		name := string(decl.Name)
+		name := utils.AsciiLower(decl.Name)
 		err := out.validateDescriptor(baseUrl, name, tokens)
 		if err != nil {
 			logger.WarningLogger.Printf("Ignored `%s:%s` at %d:%d, %s.\n",
